@@ -229,6 +229,9 @@ fn expat_agrees(v: &Value, doc: &FdtDoc) -> Result<(), String> {
 }
 
 pub fn check(c: &OpCase, run: &OpsRun, info: &mut CaseInfo, supersede: bool) -> Result<(), String> {
+    if let Some((toi, at)) = run.remove_refused.first() {
+        return Err(format!("remove_object({}) answered false (log #{}) although the object had been added, not removed, and had not finished its transfers: later instances keep listing a removed object", toi, at));
+    }
     let log = &run.drv.log;
     let an = stream::analyse(log);
     if let Some(e) = an.errors.first() {
